@@ -134,7 +134,16 @@ func callScopeRuleSSA(r *Run, rule string) {
 			}
 		}
 		if body < 0 {
-			continue // an error path: the body never runs
+			// an error path: the body never runs. A path that answers the call WITHOUT an error and without running
+			// the body (a result remembered from an earlier call) skips what the body would have done and seen now
+			if p.end == "return" && len(p.results) == 2 && isNilErrorResult(p.results[1]) {
+				pos := fn.Pos()
+				if p.ret != nil {
+					pos = p.ret.Pos()
+				}
+				bad["a call is answered without an error and without running the body: the value comes from somewhere else than this activation (an earlier call with arguments that merely look alike, other variables in scope, other side effects)"] = pos
+			}
+			continue
 		}
 		nBody++
 		if install < 0 || install > body {
